@@ -111,9 +111,11 @@ static std::vector<Step> SCRIPT;
 struct Mon {
 	bool fire(int i)
 	{
+		VS_BOOKKEEPING_BEGIN();	// the harness' own event log, serialised by the scheduler (see sched.h)
 		EvRec& e = evs[i]; const int k = (int)e.runs.size() + 1, fa = false_at(e.kind);
 		const bool ret = !(fa && k >= fa);
 		e.runs.push_back((int)rlog.size()); rlog.push_back(RunRec { i, vs_now(), ++gseq, ret });
+		VS_BOOKKEEPING_END();
 		return ret;
 	}
 	template<int I> bool cb() { return fire(I); }
@@ -138,16 +140,16 @@ static std::string body()
 		if (is_sched(s.kind)) {
 			EvRec& e = evs[nev];
 			TimerEvent<Mon> te(CB[nev], is_rep(s.kind));
-			e.t_call = vs_now(); e.seq_call = ++gseq;
-			e.ok = tm->schedule(te, (unsigned)s.ms);
-			e.seq_ret = ++gseq; ++nev;
+			VS_BOOKKEEPING_BEGIN(); e.t_call = vs_now(); e.seq_call = ++gseq; VS_BOOKKEEPING_END();
+			const bool ok = tm->schedule(te, (unsigned)s.ms);
+			VS_BOOKKEEPING_BEGIN(); e.ok = ok; e.seq_ret = ++gseq; ++nev; VS_BOOKKEEPING_END();
 		}
 		else if (s.kind == K_SLEEP) hypersleep<h_milliseconds>((unsigned)s.ms);
-		else { ClrRec c; c.seq_call = ++gseq; c.t = vs_now(); c.n = tm->clear(); c.seq_ret = ++gseq; clrs.push_back(c); }
+		else { ClrRec c; VS_BOOKKEEPING_BEGIN(); c.seq_call = ++gseq; c.t = vs_now(); VS_BOOKKEEPING_END(); c.n = tm->clear(); VS_BOOKKEEPING_BEGIN(); c.seq_ret = ++gseq; clrs.push_back(c); VS_BOOKKEEPING_END(); }
 	}
 	const long long hz = t0 + HORIZON * MS;
 	if (vs_now() < hz) { timespec ts { (time_t)(hz / 1000000000LL), (long)(hz % 1000000000LL) }; clock_nanosleep(CLOCK_MONOTONIC, TIMER_ABSTIME, &ts, 0); }
-	const long long t_stop = vs_now(); const long seq_stop = ++gseq;
+	VS_BOOKKEEPING_BEGIN(); const long long t_stop = vs_now(); const long seq_stop = ++gseq; VS_BOOKKEEPING_END();
 	tm->stop(); tm->join();
 	delete tm;
 
